@@ -306,7 +306,7 @@ Example C09_null_callback_handle_wakes_loop :
 Proof.
   destruct null_callback_handle_wakes_loop as (s & Hr & Hq & Hp & Hc & Hs & Hpub).
   exists nc_cbf, 1%nat, 0, [OpRun true], nobeh, [[0%nat; 0%nat]],
-         (nc_sched1 ++ [1; 1; 1; 1; 1; 1; 0; 0; 0; 0; 0]%nat), s.
+         (nc_sched1 ++ [1; 1; 1; 1; 1; 1; 0; 0; 0; 0]%nat), s.
   repeat split; auto; lia.
 Qed.
 Print Assumptions C09_null_callback_handle_wakes_loop.
